@@ -134,6 +134,14 @@ type Plan struct {
 	CloseEnd bool `json:"close_end,omitempty"`
 	// Verbose: gRPC log verbosity 99 for this run (code under log.V(...) runs)
 	Verbose bool `json:"verbose,omitempty"`
+	// SharedAddrs: the resolver's address lists are windows into ONE array it owns
+	// (prefixes of each other, the longer lists in the spare capacity of the shorter)
+	SharedAddrs bool `json:"shared_addrs,omitempty"`
+	// OddKeys: affinity key strings are long / contain separators, spaces, NUL and
+	// non-ASCII characters instead of "k<i>"
+	OddKeys bool `json:"odd_keys,omitempty"`
+	// ScaleMix: the plan carries the "pool starts with 17-40 channels" fragment
+	ScaleMix bool `json:"scale_mix,omitempty"`
 	Ops     []Op `json:"ops"`
 	// Suffix: concurrent plans only - a short serial operation list executed with
 	// the full model after the burst has quiesced and healed (fresh keys only).
@@ -351,6 +359,8 @@ func Generate(r *rand.Rand, profile string, concurrent bool, av Avoid) *Plan {
 		p.CloseEnd = true
 	}
 	p.Verbose = r.IntN(8) == 0 || (profile == "chaos" && r.IntN(4) == 0)
+	p.SharedAddrs = r.IntN(4) == 0
+	p.OddKeys = r.IntN(6) == 0
 	if concurrent {
 		p.Strategy = r.IntN(4)
 	}
@@ -382,6 +392,9 @@ func Generate(r *rand.Rand, profile string, concurrent bool, av Avoid) *Plan {
 		switch o.K {
 		case OpResolver:
 			o.A = r.IntN(3)
+			if r.IntN(5) == 0 {
+				o.A = 3 + r.IntN(4) // three-address, two long lists (one the other's tail), server-name variant
+			}
 			o.B = r.IntN(2)
 			if r.IntN(8) == 0 && (profile == "chaos") {
 				o.F |= FlagEmpty
@@ -521,7 +534,7 @@ func Generate(r *rand.Rand, profile string, concurrent bool, av Avoid) *Plan {
 		ops = append(ops, frag...)
 		p.Ops = append(ops, p.Ops[at:]...)
 	}
-	// Directed fragment: the same channel refreshed two or three times in a row
+	// Directed fragment: the same channel refreshed two to ten times in a row
 	// with no response in between (all its calls run into their deadline), then
 	// one more round whose wait is a small multiple of the detection window: the
 	// only histories in which the backoff exponent exceeds 1.
@@ -535,6 +548,9 @@ func Generate(r *rand.Rand, profile string, concurrent bool, av Avoid) *Plan {
 			{K: OpDone, A: -1, B: OutOK, Keys: []int{k}},
 		}
 		rounds := 2 + r.IntN(2)
+		if r.IntN(4) == 0 {
+			rounds = 4 + r.IntN(7) // a long outage: the window doubles up to a thousandfold
+		}
 		for j := 0; j <= rounds; j++ {
 			for c := 0; c < n; c++ {
 				frag = append(frag, Op{K: OpPick, B: MBound, Keys: []int{k}, D: 1, E: 1})
@@ -788,6 +804,63 @@ func Generate(r *rand.Rand, profile string, concurrent bool, av Avoid) *Plan {
 		ops = append(ops, frag...)
 		p.Ops = append(ops, p.Ops[at:]...)
 	}
+	// Directed fragment (scale x features): a pool that starts with 17-40 channels
+	// (minSize = maxSize), all but one to three of them READY, under whatever
+	// features the plan has plus round-robin BIND in most of these runs: BIND
+	// calls whose context has ended or ends soon walk the whole rotation (and are
+	// handed channels that are not READY), unkeyed calls between them. The rest
+	// of the plan follows, its connection events spread over the whole pool.
+	if (profile == "rr" || profile == "load" || profile == "fallback") && !concurrent && !p.Cfg.NilCfg && !p.Cfg.NilPool && r.IntN(25) == 0 && len(p.Ops) > 4 {
+		n := 17 + r.IntN(24)
+		p.Cfg.Min, p.Cfg.Max = uint32(n), uint32(n)
+		if r.IntN(4) > 0 {
+			p.Cfg.RR = true
+		}
+		down := map[int]int{}
+		for k := 1 + r.IntN(3); k > 0; k-- {
+			down[r.IntN(n)] = 1 + r.IntN(2)
+		}
+		var frag []Op
+		for j := 0; j < n; j++ {
+			switch down[j] {
+			case 0:
+				frag = append(frag, Op{K: OpConn, A: j, B: ConnProgress}, Op{K: OpConn, A: j, B: ConnProgress})
+			case 1: // stays CONNECTING
+				frag = append(frag, Op{K: OpConn, A: j, B: ConnProgress})
+			case 2: // TRANSIENT_FAILURE
+				frag = append(frag, Op{K: OpConn, A: j, B: ConnProgress}, Op{K: OpConn, A: j, B: ConnFail})
+			}
+		}
+		for c := n + r.IntN(n); c > 0; c-- {
+			b := Op{K: OpPick, B: MBind, Keys: []int{r.IntN(nKeys)}, D: 2}
+			if r.IntN(3) == 0 {
+				b.D, b.E = 1, 1+r.IntN(20)
+			}
+			frag = append(frag, b)
+			if b.D == 1 {
+				frag = append(frag, Op{K: OpAdvance, E: b.E + 1})
+			}
+			if r.IntN(4) > 0 {
+				frag = append(frag, Op{K: OpDone, A: -1, B: []int{OutOK, OutAppErr, OutCancelled}[r.IntN(3)], Keys: []int{r.IntN(nKeys)}})
+			}
+			if r.IntN(2) == 0 {
+				frag = append(frag, Op{K: OpPick, B: MPlain})
+				if r.IntN(2) == 0 {
+					frag = append(frag, Op{K: OpDone, A: -1, B: OutOK})
+				}
+			}
+		}
+		rest := append([]Op{}, p.Ops[1:]...)
+		for i := range rest {
+			if rest[i].K == OpConn && rest[i].A >= 0 {
+				rest[i].A = r.IntN(n)
+			}
+		}
+		ops := append([]Op{}, p.Ops[:1]...)
+		ops = append(ops, frag...)
+		p.Ops = append(ops, rest...)
+		p.ScaleMix = true
+	}
 	for i := range p.Ops {
 		p.Ops[i].ID = i + 1
 	}
@@ -852,6 +925,8 @@ func Simplify(p *Plan) []*Plan {
 		return ch
 	})
 	add(func(c *Plan) bool { ch := !c.Legal; c.Legal = true; return ch })
+	add(func(c *Plan) bool { ch := c.SharedAddrs; c.SharedAddrs = false; return ch })
+	add(func(c *Plan) bool { ch := c.OddKeys; c.OddKeys = false; return ch })
 	for i := range p.Ops {
 		i := i
 		o := p.Ops[i]
